@@ -566,7 +566,7 @@ impl JusticeOracle {
 			// bumps by 25 % at every timer even when its estimate does not move); refusals because the bumped fee
 			// would leave less than the dust limit are the listed split-remainder finding
 			if let Some((frate, ffee, fid)) = self.first_claim.get(&tip).cloned() {
-				if rate <= frate * 1.02 && in_sum >= ffee * 4 + 2_000 && !sim.w.noted(self.v, "bump-refused-below-dust") {
+				if rate <= frate * 1.005 && in_sum >= ffee * 4 + 2_000 && !sim.w.noted(self.v, "bump-refused-below-dust") {
 					return Err(fail(
 						"fee-inadequate",
 						format!("V has been claiming {} since its height {} and the output is still unspent at its height {}, yet the latest claim {} pays {:.1} sat/kw, no more than the first one {} ({:.1} sat/kw, {} sat of {} sat claimed): the claim was never bumped in {} blocks", tip, first, hv, id, rate, fid, frate, ffee, in_sum, hv - first),
